@@ -26,7 +26,7 @@ def match_known(known, prop, obname, label, values):
         if not fnmatch.fnmatch(label, k.get("label", "*")):
             continue
         try:
-            env = {"v": values, "__builtins__": {"abs": abs, "len": len, "str": str, "any": any, "all": all, "isinstance": isinstance, "float": float, "int": int, "range": range, "min": min, "max": max}}
+            env = {"v": values, "ob": obname, "__builtins__": {"abs": abs, "len": len, "str": str, "any": any, "all": all, "isinstance": isinstance, "float": float, "int": int, "range": range, "min": min, "max": max}}
             env.update(KNOWN_HELPERS)
             if eval(k.get("when", "True"), env):
                 return k
